@@ -311,8 +311,12 @@ example : ∀ g', g'.map toLowerRune = tri [97, 98, 99] 0 → g' ∈ exVars := b
           · split at hxy
             · omega
             · split at hxy
-              · right; right; omega
-              · left; omega
+              · omega
+              · split at hxy
+                · omega
+                · split at hxy
+                  · right; right; omega
+                  · left; omega
     rcases lowerInv a 97 ha (by omega) (by omega) (by omega) with h1 | h1 | h1 <;>
     rcases lowerInv b 98 hb (by omega) (by omega) (by omega) with h2 | h2 | h2 <;>
     rcases lowerInv c 99 hc (by omega) (by omega) (by omega) with h3 | h3 | h3 <;>
